@@ -5,6 +5,7 @@ ops replays exactly.  Positions are taken modulo the current length, so ops stay
 applicable while the shrinker changes the workload."""
 
 STRUCT = [0x00, 0x80, 0x81, 0x84, 0xff, 0x30, 0x31, 0x24, 0xa0, 0x1f, 0x7f, 0x02, 0x04, 0x05]
+CONTENT = [0x00, 0x01, 0x02, 0x03, 0x07, 0x08, 0x09, 0x40, 0x41, 0x42, 0x43, 0x7f, 0x80, 0x81, 0x82, 0x83, 0xc0, 0xc3, 0xff]
 
 
 def apply(b, ops):
@@ -48,11 +49,18 @@ def gen_ops(r, b, nodes=None, max_ops=3):
         node = r.choice(nodes) if nodes else None
         if x < 0.25:
             ops.append(['flip', r.randrange(n), r.randrange(8)])
-        elif x < 0.45:
+        elif x < 0.36:
             pos = r.randrange(n)
             if node is not None and r.random() < 0.6:
                 pos = r.choice([node[0], node[1], max(node[0], node[2] - 1)])
             ops.append(['set', pos, r.choice(STRUCT)])
+        elif x < 0.45:
+            # the first content octets of an element carry structure of their own (REAL forms,
+            # BIT STRING pad count, OID continuation, sign): aim at them
+            pos = r.randrange(n)
+            if node is not None:
+                pos = node[2] + r.choice([0, 0, 1, 2])
+            ops.append(['set', pos, r.choice(CONTENT)])
         elif x < 0.55:
             ops.append(['ins', r.randrange(n + 1) if n else 0,
                         bytes(r.choice(STRUCT) for _ in range(r.choice([1, 1, 2, 4]))).hex()])
